@@ -352,9 +352,11 @@ func (c *ChanCloser) initFeeBaseline() {
 	}
 
 	// Given the target fee-per-kw, we'll compute what our ideal _total_
-	// fee will be starting at for this fee negotiation.
+	// fee will be starting at for this fee negotiation. The channel type
+	// decides the size of the witness spending the funding output.
+	chanType := c.cfg.Channel.ChanType()
 	c.idealFeeSat = c.cfg.FeeEstimator.EstimateFee(
-		0, localTxOut, remoteTxOut, c.idealFeeRate,
+		chanType, localTxOut, remoteTxOut, c.idealFeeRate,
 	)
 
 	// When we're the initiator, we'll want to also factor in the highest
@@ -363,7 +365,7 @@ func (c *ChanCloser) initFeeBaseline() {
 	c.maxFee = c.idealFeeSat * defaultMaxFeeMultiplier
 	if c.cfg.MaxFee > 0 {
 		c.maxFee = c.cfg.FeeEstimator.EstimateFee(
-			0, localTxOut, remoteTxOut, c.cfg.MaxFee,
+			chanType, localTxOut, remoteTxOut, c.cfg.MaxFee,
 		)
 	}
 
